@@ -121,6 +121,17 @@ func call(fn any, src reflect.Value) (res reflect.Value, err error, pan any) {
 			pan = r
 		}
 	}()
+	ft := reflect.TypeOf(fn)
+	if ft.NumIn() == 2 {
+		// update-signature method: Name(source S, target *T) [error]
+		tgt := reflect.New(ft.In(1).Elem())
+		out := reflect.ValueOf(fn).Call([]reflect.Value{src, tgt})
+		res = tgt.Elem()
+		if len(out) > 0 && !out[0].IsNil() {
+			err = out[0].Interface().(error)
+		}
+		return
+	}
 	out := reflect.ValueOf(fn).Call([]reflect.Value{src})
 	res = out[0]
 	if len(out) > 1 && !out[1].IsNil() {
@@ -649,10 +660,10 @@ func RunRace(t *testing.T, w *World) {
 					defer wg.Done()
 					<-start
 					defer func() { _ = recover() }()
-					out := reflect.ValueOf(m.Fn).Call([]reflect.Value{src})
+					res, _, _ := call(m.Fn, src)
 					// each caller mutates what it owns: its own result
-					if !m.SkipCopy {
-						Scribble(out[0])
+					if !m.SkipCopy && res.IsValid() {
+						Scribble(res)
 					}
 				}()
 			}
